@@ -227,12 +227,15 @@ fn c07_build(cfg: &[u16]) -> Built {
     let mut c = CfgSpec::default();
     c.max_joins = [None, None, Some(1), Some(2), Some(3)][s.pick(5)];
     let mut setup: Vec<(String, String)> = vec![];
+    // the second channel has a mixed-case name in a third of the cases (names are case-sensitive,
+    // also where invitations and lists are kept)
+    let second: &str = if s.chance(35) { "#Mixed" } else { "#c1" };
     setup.push(("n0".into(), "JOIN #c0".into()));
     if c.max_joins != Some(1) {
-        setup.push(("n0".into(), "JOIN #c1".into()));
+        setup.push(("n0".into(), format!("JOIN {}", second)));
     }
-    for ch in ["#c0", "#c1"] {
-        if ch == "#c1" && c.max_joins == Some(1) {
+    for ch in ["#c0", second] {
+        if ch == second && c.max_joins == Some(1) {
             break;
         }
         let heavy = ch == "#c0";
